@@ -143,7 +143,20 @@ fn hook_task_decide(site: &'static str, kind: qbice::storage::verif::PointKind) 
 
 fn hook_thread_point(site: &'static str) { simkit::pipeline::on_thread_point(site); }
 
+/// kill -9 of this process at the n-th write-behind event (0 = never)
+pub static KILL_AT: std::sync::atomic::AtomicU64 = std::sync::atomic::AtomicU64::new(0);
+static WB_EVENTS: std::sync::atomic::AtomicU64 = std::sync::atomic::AtomicU64::new(0);
+
 fn hook_event(site: &'static str, a: u64, b: u64) {
+    if site.starts_with("wb_") || site == "simkv_commit" {
+        let k = KILL_AT.load(Ordering::SeqCst);
+        if k != 0 && WB_EVENTS.fetch_add(1, Ordering::SeqCst) + 1 == k {
+            // process death at an arbitrary instant of the pipeline
+            unsafe {
+                libc::kill(libc::getpid(), libc::SIGKILL);
+            }
+        }
+    }
     simkit::pipeline::on_event(site, a, b);
     if site.starts_with("wb_") || site == "simkv_commit" {
         return;
